@@ -48,6 +48,11 @@ type tcase struct {
 	Vers  []string `json:"vers"`  // T0, T1, ... (complete file sources)
 	Kinds []string `json:"kinds"` // Kinds[i] = canonical kind of the edit Vers[i-1] -> Vers[i]
 
+	// path forms the handler (given the .templ path) and the runtime (given its _templ.go path) must agree on
+	File    string `json:"file,omitempty"`     // file base name if not lower(Name): spaces, dots, non-ASCII
+	Link    string `json:"link,omitempty"`     // .templ is a file-level symlink: abs | rel | chain | into-linked-dir
+	PkgForm string `json:"pkg_form,omitempty"` // whole package reached through a symlinked directory, handler given a relative root
+
 	WatchRounds []watchRound `json:"watch_rounds,omitempty"` // replay of the watch-mode CLI scenario instead
 
 	alive  bool
@@ -161,7 +166,7 @@ func same(a, b []rres) (bool, string) {
 	return true, ""
 }
 
-var reBuildErr = regexp.MustCompile(`(?m)^(?:\./)?([a-z]+[0-9]+)_templ\.go:\d+`)
+var reBuildErr = regexp.MustCompile(`(?m)^(?:\./)?([^/:]+)_templ\.go:\d+`)
 
 type batch struct {
 	c       *core.Ctx
@@ -169,12 +174,48 @@ type batch struct {
 	pkg     *corpus.Pkg
 	txtRoot string // where the in-process handler writes text files (TEMPL_DEV_MODE_ROOT of the harness)
 	pubRoot string // where the driver processes read them; filled by publish() only
+	dir     string // the package directory as handler, compiler and drivers are told (may contain a symlink component)
+	viaLink bool   // dir goes through a symlinked directory and the handler gets a relative root
+	shared  string // directory outside the package holding the targets of file-level symlinks
 	// results
 	matrixFailed map[string]bool
 }
 
+func fileBase(tc *tcase) string {
+	if tc.File != "" {
+		return tc.File
+	}
+	return strings.ToLower(tc.Name)
+}
+
+// link makes the case's .templ path a file-level symlink to a file in another directory.
+func (b *batch) link(tc *tcase) {
+	if b.shared == "" {
+		b.shared = corpus.Scratch("c16shared")
+		_ = os.MkdirAll(filepath.Join(b.shared, "realdir"), 0o755)
+		_ = os.Symlink("realdir", filepath.Join(b.shared, "linkdir"))
+	}
+	target := filepath.Join(b.shared, fileBase(tc)+".templ")
+	var err error
+	switch tc.Link {
+	case "abs":
+		err = os.Symlink(target, b.file(tc))
+	case "rel": // ln -s ../shared/page.templ page.templ
+		rel, _ := filepath.Rel(b.dir, target)
+		err = os.Symlink(rel, b.file(tc))
+	case "chain":
+		_ = os.Symlink(fileBase(tc)+".real.templ", target)
+		err = os.Symlink(target, b.file(tc))
+	case "into-linked-dir":
+		err = os.Symlink(filepath.Join(b.shared, "linkdir", fileBase(tc)+".templ"), b.file(tc))
+	}
+	if err != nil {
+		core.Infra("symlink: %v", err)
+	}
+}
+
 func (b *batch) file(tc *tcase) string {
-	return filepath.Join(b.pkg.Dir, strings.ToLower(tc.Name)+".templ")
+	return filepath.Join(b.dir, fileBase(tc)+".templ")
 }
 
 // publish makes the handler's current text file of tc visible to the driver
@@ -208,12 +249,12 @@ func (b *batch) drop(tc *tcase) {
 // build compiles the package; files that do not compile are returned (and the
 // build repeated without them) so that one bad pair never hides the others.
 func (b *batch) build(step int, byFile map[string]*tcase, onFail func(tc *tcase, msg string)) string {
-	bin := filepath.Join(b.pkg.Dir, fmt.Sprintf("b%d.bin", step))
+	bin := filepath.Join(b.dir, fmt.Sprintf("b%d.bin", step))
 	for attempt := 0; attempt < 6; attempt++ {
 		ctx, cancel := context.WithTimeout(context.Background(), 15*time.Minute)
 		cmd := exec.CommandContext(ctx, "go", "build", "-gcflags=-e", "-o", bin, ".")
-		cmd.Dir = b.pkg.Dir
-		cmd.Env = corpus.Env()
+		cmd.Dir = b.dir
+		cmd.Env = corpus.Env("PWD=" + b.dir) // the compiler records file names below $PWD (keeps a symlink component)
 		out, err := cmd.CombinedOutput()
 		cancel()
 		if err == nil {
@@ -255,18 +296,34 @@ func (b *batch) run() {
 	b.pkg = corpus.New(c, "c16")
 	defer b.pkg.Close()
 	b.pkg.Write("main.go", driverSrc)
+	b.dir = b.pkg.Dir
+	root := b.dir
+	if b.viaLink {
+		// <scratch>/via link/pkg -> real package directory; the handler is given a RELATIVE root
+		ld := filepath.Join(corpus.Scratch("c16ln"), "via link")
+		_ = os.MkdirAll(ld, 0o755)
+		if err := os.Symlink(b.pkg.Dir, filepath.Join(ld, "pkg")); err != nil {
+			core.Infra("symlink: %v", err)
+		}
+		b.dir = filepath.Join(ld, "pkg")
+		if wd, err := os.Getwd(); err == nil {
+			if rel, err := filepath.Rel(wd, b.dir); err == nil {
+				root = rel
+			}
+		}
+	}
 	byFile := map[string]*tcase{}
 	maxStep := 0
 	for _, tc := range b.cases {
 		tc.alive = true
 		tc.cls = make([]class, len(tc.Vers))
-		byFile[strings.ToLower(tc.Name)] = tc
+		byFile[fileBase(tc)] = tc
 		if len(tc.Vers)-1 > maxStep {
 			maxStep = len(tc.Vers) - 1
 		}
 	}
 	// the handler exactly as `templ generate --watch` creates it (include-version defaults to true)
-	h := generatecmd.NewFSEventHandler(discardLog, b.pkg.Dir, true,
+	h := generatecmd.NewFSEventHandler(discardLog, root, true,
 		[]generator.GenerateOpt{generator.WithVersion(templ.Version())}, false, false, generatecmd.FileWriter, false)
 	base := time.Date(2001, 1, 1, 0, 0, 0, 0, time.UTC)
 	b.pubRoot = corpus.Scratch("c16pub")
@@ -315,6 +372,9 @@ func (b *batch) run() {
 				defer wg.Done()
 				defer func() { <-sem }()
 				f := b.file(tc)
+				if k == 0 && tc.Link != "" {
+					b.link(tc) // writes below go THROUGH the link, as an editor saving the shared file does
+				}
 				if err := os.WriteFile(f, []byte(tc.Vers[k]), 0o644); err != nil {
 					core.Infra("write: %v", err)
 				}
@@ -381,7 +441,7 @@ func (b *batch) run() {
 			}
 		})
 		normal, err := func() (map[string][]rres, error) {
-			p, err := startProc(bin, b.pkg.Dir, append(env, "TEMPL_DEV_MODE="))
+			p, err := startProc(bin, b.dir, append(env, "TEMPL_DEV_MODE="))
 			if err != nil {
 				return nil, err
 			}
@@ -392,7 +452,7 @@ func (b *batch) run() {
 			c.Inconclusive(fmt.Sprintf("step %d: normal run failed: %v", k, err))
 			return
 		}
-		dp, err := startProc(bin, b.pkg.Dir, append(env, "TEMPL_DEV_MODE=true"))
+		dp, err := startProc(bin, b.dir, append(env, "TEMPL_DEV_MODE=true"))
 		if err != nil {
 			c.Inconclusive(fmt.Sprintf("step %d: dev run failed: %v", k, err))
 			return
